@@ -590,6 +590,7 @@ void vs_sleep_ms(double ms) { vsleep_ns((uint64_t)(ms * 1e6)); }
 uint64_t vs_now_ns(void) { return NOW; }
 int vs_self(void) { return my_tid; }
 int vs_thread_count(void) { return NT; }
+int vs_blocked_on_cond(int tid) { return tid >= 0 && tid < NT && T[tid].used && !T[tid].finished && T[tid].blk == BLK_COND; }
 int vs_live_threads(void) { int n = 0; for (int i = 0; i < NT; ++i) n += T[i].used && !T[i].finished && i != my_tid; return n; }
 unsigned vs_sleeps_of(int tid) { return (tid >= 0 && tid < NT) ? T[tid].nsleeps : 0; }
 int vs_active(void) { return ACTIVE; }
